@@ -5,4 +5,10 @@ MORE = [
  ("C08", "pastify() ignored the units of temporal bounds", "pastify() added raw bound numbers of different units and rebuilt intervals without units; next counted as one default unit instead of one period (README time_units_8) (also C03)"),
  ("C08", "conversion of a bound to the default unit was inverted", "dense-time bound conversion inverted: with default unit s, once[0:2000ms] became a 2 000 000 s window"),
  ("C17", "did not reject s_prev / s_next", "dense-time monitors: s_prev/s_next were not rejected (offline evaluated s_prev(p) as p, online raised KeyError)"),
+ ("C15", "untimed 'unless' crashed the parser", "untimed 'p unless q' raised AttributeError in the STL and LTL parser visitors (also C14)"),
+ ("C14", "start no token were printed and skipped", "illegal characters were printed and skipped by the lexer: 'x # >= 3' parsed as 'x >= 3'"),
+ ("C14", "undeclared variable raised KeyError", "an undeclared identifier raised KeyError in parse() instead of being implicitly declared as the warning says (also C17)"),
+ ("C14", "KeyError 'default'", "a bound given by a declared constant without unit raised KeyError 'default' at the first evaluation (also C09)"),
+ ("C14", "begin > end was accepted", "intervals with begin > end were accepted by parse() and crashed or misbehaved in the monitors"),
+ ("C14", "empty specification text raised IndexError", "parse() of an empty / blank text raised IndexError"),
 ]
